@@ -204,6 +204,15 @@ class Program:
                 self._bodies[key] = Body(f)
         return self._bodies[key]
 
+    def owner_fn(self, key):
+        """The named function a closure (of a closure …) is written in; a named function is its own owner."""
+        for _ in range(6):
+            f = self.fns.get(key) or {}
+            if f.get("kind") != "Closure" or f.get("parent") not in self.fns:
+                break
+            key = f["parent"]
+        return key
+
     def raw_body(self, key):
         k = ("raw", key)
         if k not in self._bodies:
